@@ -3,7 +3,7 @@
 
   Standing hypotheses of the refinement theorems:
     `hu : c.mult = 1`   the dtype's unit is one bit (every registered dtype except `bytes`; see `bytes_dtype_witness`)
-    `hL : 0 < c.L`      a non-degenerate item width
+    `hL : 0 < c.w`      a non-degenerate item width
     `hwf : c.WF`        `|enc v| = w` and `dec (enc v) = v` for the values the dtype accepts
   so every statement holds for EVERY fixed-length dtype with these properties, not for a list of dtypes.
   (Slices: Props/C14_Slices.lean, operators and promotion: Props/C14_Ops.lean, whole histories: Props/C14_Sim.lean.)
@@ -47,24 +47,24 @@ theorem data_layout_enc (c : Codec V) (hw : 0 < c.w) (hcanon : c.Canonical) (d :
 
 /-- Construction from an iterable: the data is the encodings back to back, then `trailing_bits`; the items are the
     values given (for any codec, canonical or not). -/
-theorem init_list_layout (c : Codec V) (hu : c.mult = 1) (hL : 0 < c.L) (hwf : c.WF)
+theorem init_list_layout (c : Codec V) (hL : 0 < c.w) (hwf : c.WF)
     (vals : List V) (t : Option Bits) (d : Bits) (h : init c (.list vals) t = .ok d) :
     ∃ bs, vals.mapM c.enc = .ok bs ∧ d = bs.flatten ++ t.getD [] ∧
       ((t.getD []).length < c.w → items c d = vals ∧ trailing c.w d = t.getD []) := by
   unfold init at h
   simp only at h
-  have h0 : ([] : Bits).length % c.L = 0 := by simp
+  have h0 : ([] : Bits).length % c.w = 0 := by simp
   cases hall : vals.all (fits c) with
   | false =>
-    obtain ⟨e, he⟩ := extendLoop_err c hu hwf vals [] hall
+    obtain ⟨e, he⟩ := extendLoop_err c hwf vals [] hall
     have : (extendIter c [] vals).res = .error e := by
       unfold extendIter; rw [if_neg (not_not.mpr h0)]; exact he
     rw [this] at h
     cases t <;> simp at h
   | true =>
-    obtain ⟨bl, hf, hbl, hdec, hm, _⟩ := encs_of_fits c hu hwf vals hall
+    obtain ⟨bl, hf, hbl, hdec, hm, _⟩ := encs_of_fits c hwf vals hall
     have hs : extendIter c [] vals = ⟨bl.flatten, .ok ()⟩ := by
-      unfold extendIter; rw [if_neg (not_not.mpr h0), extendLoop_blocks c hu hwf vals bl hf]; simp
+      unfold extendIter; rw [if_neg (not_not.mpr h0), extendLoop_blocks c hwf vals bl hf]; simp
     rw [hs] at h
     refine ⟨bl, hm, ?_, ?_⟩
     · cases t with
@@ -76,13 +76,13 @@ theorem init_list_layout (c : Codec V) (hu : c.mult = 1) (hL : 0 < c.L) (hwf : c
         | none => simp at h; simp [← h]
         | some t => simp at h; simp [← h]
       rw [hd]
-      have hv' := view_of_blocks c hu hL bl (t.getD []) hbl (by rw [← w_eq_L c hu]; exact ht)
+      have hv' := view_of_blocks c hL bl (t.getD []) hbl (by rw [← w_eq_L c hu]; exact ht)
       exact ⟨by rw [hv'.1, hdec], hv'.2.1⟩
 
 /-- Construction fails iff some value does not fit. -/
-theorem init_list_error_iff (c : Codec V) (hu : c.mult = 1) (hwf : c.WF) (vals : List V) (t : Option Bits) :
+theorem init_list_error_iff (c : Codec V) (hwf : c.WF) (vals : List V) (t : Option Bits) :
     (∃ e, init c (.list vals) t = .error e) ↔ ∃ v ∈ vals, fits c v = false := by
-  have h0 : ([] : Bits).length % c.L = 0 := by simp
+  have h0 : ([] : Bits).length % c.w = 0 := by simp
   constructor
   · rintro ⟨e, he⟩
     by_contra hne
@@ -91,9 +91,9 @@ theorem init_list_error_iff (c : Codec V) (hu : c.mult = 1) (hwf : c.WF) (vals :
       intro v hv
       by_contra hv'
       exact hne ⟨v, hv, by simpa using hv'⟩
-    obtain ⟨bl, hf, _, _, _, _⟩ := encs_of_fits c hu hwf vals hall
+    obtain ⟨bl, hf, _, _, _, _⟩ := encs_of_fits c hwf vals hall
     have hs : extendIter c [] vals = ⟨bl.flatten, .ok ()⟩ := by
-      unfold extendIter; rw [if_neg (not_not.mpr h0), extendLoop_blocks c hu hwf vals bl hf]; simp
+      unfold extendIter; rw [if_neg (not_not.mpr h0), extendLoop_blocks c hwf vals bl hf]; simp
     unfold init at he
     simp only [hs] at he
     cases t <;> simp at he
@@ -101,7 +101,7 @@ theorem init_list_error_iff (c : Codec V) (hu : c.mult = 1) (hwf : c.WF) (vals :
     have hall : vals.all (fits c) = false := by
       rw [List.all_eq_false]
       exact ⟨v, hv, by simp [hfv]⟩
-    obtain ⟨e, he⟩ := extendLoop_err c hu hwf vals [] hall
+    obtain ⟨e, he⟩ := extendLoop_err c hwf vals [] hall
     have : (extendIter c [] vals).res = .error e := by
       unfold extendIter; rw [if_neg (not_not.mpr h0)]; exact he
     unfold init
@@ -129,37 +129,37 @@ theorem trailingBits_eq (c : Codec V) (hw : 0 < c.w) (d : Bits) : trailingBits c
     simp only [List.length_drop]
     omega
 
-theorem len_eq (c : Codec V) (hu : c.mult = 1) (d : Bits) : len c d = (items c d).length := by
+theorem len_eq (c : Codec V) (d : Bits) : len c d = (items c d).length := by
   simp [len, items, chunks_len, w_eq_L c hu]
 
 /-- `tolist()`: the `range(0, len(data) - L + 1, L)` loop reads exactly the items. -/
-theorem tolist_eq_items (c : Codec V) (hu : c.mult = 1) (hL : 0 < c.L) (d : Bits) :
+theorem tolist_eq_items (c : Codec V) (hL : 0 < c.w) (d : Bits) :
     tolist c d = .ok (items c d) := by
-  obtain ⟨bs, t, hbs, ht, rfl, hch, htr, hlen, hit⟩ := blocks_view c hu hL d
+  obtain ⟨bs, t, hbs, ht, rfl, hch, htr, hlen, hit⟩ := blocks_view c hL d
   unfold tolist Py.rangeList
-  have hl : (bs.flatten ++ t).length = bs.length * c.L + t.length := by
-    rw [List.length_append, blocks_flatten_length c.L bs hbs]
-  rw [hl, rangeLen_tolist bs.length c.L t.length hL ht, hit]
-  rw [mapM_except_ok _ (fun s => c.dec ((bs.flatten ++ t).drop s.toNat |>.take c.L))]
+  have hl : (bs.flatten ++ t).length = bs.length * c.w + t.length := by
+    rw [List.length_append, blocks_flatten_length c.w bs hbs]
+  rw [hl, rangeLen_tolist bs.length c.w t.length hL ht, hit]
+  rw [mapM_except_ok _ (fun s => c.dec ((bs.flatten ++ t).drop s.toNat |>.take c.w))]
   · congr 1
     apply List.ext_getElem
     · simp
     · intro i h1 h2
       simp only [List.length_map, List.length_range] at h1 h2
       simp only [List.getElem_map, List.getElem_range]
-      rw [toNat_zero_add_mul, block_at c.L bs t hbs i h2]
+      rw [toNat_zero_add_mul, block_at c.w bs t hbs i h2]
   · intro s hs
     simp only [List.mem_map, List.mem_range] at hs
     obtain ⟨k, hk, rfl⟩ := hs
-    rw [toNat_zero_add_mul, Nat.mul_comm k c.L, readAt_block c hu bs t hbs k hk]
-    rw [Nat.mul_comm c.L k, block_at c.L bs t hbs k hk]
+    rw [toNat_zero_add_mul, Nat.mul_comm k c.w, readAt_block c bs t hbs k hk]
+    rw [Nat.mul_comm c.w k, block_at c.w bs t hbs k hk]
 
 /-- Iteration (`start += L` generator) yields exactly the items. -/
-theorem iter_eq_items (c : Codec V) (hu : c.mult = 1) (hL : 0 < c.L) (d : Bits) :
+theorem iter_eq_items (c : Codec V) (hL : 0 < c.w) (d : Bits) :
     iter c d = .ok (items c d) := by
-  obtain ⟨bs, t, hbs, ht, rfl, hch, htr, hlen, hit⟩ := blocks_view c hu hL d
+  obtain ⟨bs, t, hbs, ht, rfl, hch, htr, hlen, hit⟩ := blocks_view c hL d
   unfold iter
-  have h := iterLoop_blocks c hu bs t hbs bs.length 0 (by omega)
+  have h := iterLoop_blocks c bs t hbs bs.length 0 (by omega)
   rw [Nat.mul_zero] at h
   rw [hlen, h, hit]
   simp only [List.drop_zero, List.take_length]
@@ -170,9 +170,9 @@ theorem iter_eq_items (c : Codec V) (hu : c.mult = 1) (hL : 0 < c.L) (d : Bits) 
 /-! ### a[i], a[i] = v, del a[i] -/
 
 /-- Indexing = Python list indexing (negative from the end, IndexError outside). -/
-theorem getItem_refines (c : Codec V) (hu : c.mult = 1) (hL : 0 < c.L) (d : Bits) (i : Int) :
+theorem getItem_refines (c : Codec V) (hL : 0 < c.w) (d : Bits) (i : Int) :
     getItem c d i = Py.getIndex (items c d) i := by
-  obtain ⟨bs, t, hbs, ht, rfl, hch, htr, hlen, hit⟩ := blocks_view c hu hL d
+  obtain ⟨bs, t, hbs, ht, rfl, hch, htr, hlen, hit⟩ := blocks_view c hL d
   unfold getItem
   rw [hit, hlen]
   cases hn : normIndex bs.length i with
@@ -190,7 +190,7 @@ theorem getItem_refines (c : Codec V) (hu : c.mult = 1) (hL : 0 < c.L) (d : Bits
   | ok k =>
     obtain ⟨hk, hkj⟩ := normIndex_ok _ _ _ hn
     simp only
-    rw [readAt_block c hu bs t hbs k hk]
+    rw [readAt_block c bs t hbs k hk]
     unfold Py.getIndex
     simp only [List.length_map]
     generalize (if i < 0 then i + (bs.length : Int) else i) = j at hkj ⊢
@@ -199,12 +199,12 @@ theorem getItem_refines (c : Codec V) (hu : c.mult = 1) (hL : 0 < c.L) (d : Bits
     simp [hj, hjk, hk]
 
 /-- Item assignment = list item assignment, for a value that fits. -/
-theorem setItem_refines (c : Codec V) (hu : c.mult = 1) (hL : 0 < c.L) (hwf : c.WF) (d : Bits) (i : Int) (v : V)
+theorem setItem_refines (c : Codec V) (hL : 0 < c.w) (hwf : c.WF) (d : Bits) (i : Int) (v : V)
     (hv : fits c v = true) :
     (setItem c d i v).view c = (PyL.setIndex (items c d) i v).map fun l => ((), l) := by
-  obtain ⟨bs, t, hbs, ht, rfl, hch, htr, hlen, hit⟩ := blocks_view c hu hL d
+  obtain ⟨bs, t, hbs, ht, rfl, hch, htr, hlen, hit⟩ := blocks_view c hL d
   obtain ⟨b, hb⟩ := (fits_iff c v).mp hv
-  obtain ⟨hce, hbl, hdec⟩ := createElement_ok c hu hwf v b hb
+  obtain ⟨hce, hbl, hdec⟩ := createElement_ok c hwf v b hb
   rw [hit]
   cases hn : normIndex bs.length i with
   | error e =>
@@ -219,19 +219,19 @@ theorem setItem_refines (c : Codec V) (hu : c.mult = 1) (hL : 0 < c.L) (hwf : c.
     simp [this, Except.map]
   | ok k =>
     obtain ⟨hk, hkj⟩ := normIndex_ok _ _ _ hn
-    rw [setItem_blocks c hu hL hwf bs t hbs ht i v b hb k hn]
+    rw [setItem_blocks c hL hwf bs t hbs ht i v b hb k hn]
     unfold PyL.setIndex Step.view
     simp only [List.length_map]
-    rw [(view_of_blocks c hu hL (bs.set k b) t (set_blocks_length c.L bs b hbs hbl k) ht).1]
+    rw [(view_of_blocks c hL (bs.set k b) t (set_blocks_length c.w bs b hbs hbl k) ht).1]
     generalize (if i < 0 then i + (bs.length : Int) else i) = j at hkj ⊢
     have h1 : ¬ (j < 0 ∨ (bs.length : Int) ≤ j) := by omega
     have h2 : j.toNat = k := by omega
     simp [h1, h2, Except.map, List.map_set, hdec]
 
 /-- … and the trailing bits are untouched (whatever the index and the value). -/
-theorem setItem_trailing (c : Codec V) (hu : c.mult = 1) (hL : 0 < c.L) (hwf : c.WF) (d : Bits) (i : Int) (v : V) :
+theorem setItem_trailing (c : Codec V) (hL : 0 < c.w) (hwf : c.WF) (d : Bits) (i : Int) (v : V) :
     trailing c.w (setItem c d i v).data = trailing c.w d := by
-  obtain ⟨bs, t, hbs, ht, rfl, hch, htr, hlen, hit⟩ := blocks_view c hu hL d
+  obtain ⟨bs, t, hbs, ht, rfl, hch, htr, hlen, hit⟩ := blocks_view c hL d
   unfold setItem
   rw [hlen]
   cases hn : normIndex bs.length i with
@@ -244,10 +244,10 @@ theorem setItem_trailing (c : Codec V) (hu : c.mult = 1) (hL : 0 < c.L) (hwf : c
     | ok b =>
       obtain ⟨_, hbl⟩ := createElement_ok_inv c v b hce
       simp only
-      rw [overwrite_block c.L hL bs t b hbs hbl k hk]
+      rw [overwrite_block c.w hL bs t b hbs hbl k hk]
       simp only
       rw [htr]
-      exact (view_of_blocks c hu hL (bs.set k b) t (set_blocks_length c.L bs b hbs hbl k) ht).2.1
+      exact (view_of_blocks c hL (bs.set k b) t (set_blocks_length c.w bs b hbs hbl k) ht).2.1
 
 /-- A rejected assignment (bad index or a value that does not fit) changes nothing. -/
 theorem setItem_error_unchanged (c : Codec V) (d : Bits) (i : Int) (v : V) (e : Err)
@@ -272,9 +272,9 @@ theorem setItem_rejects (c : Codec V) (d : Bits) (i : Int) (v : V) (hv : fits c 
     simp only [createElement_err c v e he]
     exact ⟨e, rfl⟩
 
-theorem delItem_refines (c : Codec V) (hu : c.mult = 1) (hL : 0 < c.L) (d : Bits) (i : Int) :
+theorem delItem_refines (c : Codec V) (hL : 0 < c.w) (d : Bits) (i : Int) :
     (delItem c d i).view c = (PyL.delIndex (items c d) i).map fun l => ((), l) := by
-  obtain ⟨bs, t, hbs, ht, rfl, hch, htr, hlen, hit⟩ := blocks_view c hu hL d
+  obtain ⟨bs, t, hbs, ht, rfl, hch, htr, hlen, hit⟩ := blocks_view c hL d
   rw [hit]
   cases hn : normIndex bs.length i with
   | error e =>
@@ -289,26 +289,26 @@ theorem delItem_refines (c : Codec V) (hu : c.mult = 1) (hL : 0 < c.L) (d : Bits
     simp [this, Except.map]
   | ok k =>
     obtain ⟨hk, hkj⟩ := normIndex_ok _ _ _ hn
-    rw [delItem_blocks c hu hL bs t hbs ht i k hn]
+    rw [delItem_blocks c hL bs t hbs ht i k hn]
     unfold PyL.delIndex Step.view
     simp only [List.length_map]
-    rw [(view_of_blocks c hu hL (bs.eraseIdx k) t (erase_blocks_length c.L bs hbs k) ht).1]
+    rw [(view_of_blocks c hL (bs.eraseIdx k) t (erase_blocks_length c.w bs hbs k) ht).1]
     generalize (if i < 0 then i + (bs.length : Int) else i) = j at hkj ⊢
     have h1 : ¬ (j < 0 ∨ (bs.length : Int) ≤ j) := by omega
     have h2 : j.toNat = k := by omega
     simp [h1, h2, Except.map, map_eraseIdx']
 
-theorem delItem_trailing (c : Codec V) (hu : c.mult = 1) (hL : 0 < c.L) (d : Bits) (i : Int) :
+theorem delItem_trailing (c : Codec V) (hL : 0 < c.w) (d : Bits) (i : Int) :
     trailing c.w (delItem c d i).data = trailing c.w d := by
-  obtain ⟨bs, t, hbs, ht, rfl, hch, htr, hlen, hit⟩ := blocks_view c hu hL d
+  obtain ⟨bs, t, hbs, ht, rfl, hch, htr, hlen, hit⟩ := blocks_view c hL d
   cases hn : normIndex bs.length i with
   | error e =>
     have hs : delItem c (bs.flatten ++ t) i = ⟨bs.flatten ++ t, .error e⟩ := by
       unfold delItem; rw [hlen, hn]
     rw [hs]
   | ok k =>
-    rw [delItem_blocks c hu hL bs t hbs ht i k hn, htr]
-    exact (view_of_blocks c hu hL (bs.eraseIdx k) t (erase_blocks_length c.L bs hbs k) ht).2.1
+    rw [delItem_blocks c hL bs t hbs ht i k hn, htr]
+    exact (view_of_blocks c hL (bs.eraseIdx k) t (erase_blocks_length c.w bs hbs k) ht).2.1
 
 theorem delItem_error_unchanged (c : Codec V) (d : Bits) (i : Int) (e : Err)
     (h : (delItem c d i).res = .error e) : (delItem c d i).data = d := by
@@ -320,37 +320,37 @@ theorem delItem_error_unchanged (c : Codec V) (d : Bits) (i : Int) (e : Err)
 
 /-! ### append, extend -/
 
-theorem append_refines (c : Codec V) (hu : c.mult = 1) (hL : 0 < c.L) (hwf : c.WF) (d : Bits) (v : V)
+theorem append_refines (c : Codec V) (hL : 0 < c.w) (hwf : c.WF) (d : Bits) (v : V)
     (hv : fits c v = true) (ht : trailing c.w d = []) :
     (append c d v).view c = .ok ((), items c d ++ [v]) ∧ trailing c.w (append c d v).data = [] := by
-  obtain ⟨bs, t, hbs, ht', rfl, hch, htr, hlen, hit⟩ := blocks_view c hu hL d
+  obtain ⟨bs, t, hbs, ht', rfl, hch, htr, hlen, hit⟩ := blocks_view c hL d
   rw [htr] at ht
   subst ht
   obtain ⟨b, hb⟩ := (fits_iff c v).mp hv
-  obtain ⟨hce, hbl, hdec⟩ := createElement_ok c hu hwf v b hb
-  have hm : (bs.flatten ++ ([] : Bits)).length % c.L = 0 := by
-    rw [List.append_nil, blocks_flatten_length c.L bs hbs]; exact Nat.mul_mod_left _ _
+  obtain ⟨hce, hbl, hdec⟩ := createElement_ok c hwf v b hb
+  have hm : (bs.flatten ++ ([] : Bits)).length % c.w = 0 := by
+    rw [List.append_nil, blocks_flatten_length c.w bs hbs]; exact Nat.mul_mod_left _ _
   have hs : append c (bs.flatten ++ []) v = ⟨(bs ++ [b]).flatten ++ [], .ok ()⟩ := by
     unfold append
     rw [if_neg (not_not.mpr hm)]
     simp only [hce]
     simp
-  have hbs' := append_blocks_length c.L bs [b] hbs (by simpa using hbl)
-  have hv' := view_of_blocks c hu hL (bs ++ [b]) [] hbs' ht'
+  have hbs' := append_blocks_length c.w bs [b] hbs (by simpa using hbl)
+  have hv' := view_of_blocks c hL (bs ++ [b]) [] hbs' ht'
   rw [hs, hit]
   refine ⟨?_, hv'.2.1⟩
   unfold Step.view
   simp only [hv'.1, List.map_append, List.map_cons, List.map_nil, hdec]
 
 /-- With trailing bits, or with a value that does not fit, `append` raises and changes nothing. -/
-theorem append_rejects (c : Codec V) (hu : c.mult = 1) (hL : 0 < c.L) (d : Bits) (v : V)
+theorem append_rejects (c : Codec V) (hL : 0 < c.w) (d : Bits) (v : V)
     (h : trailing c.w d ≠ [] ∨ fits c v = false) :
     (∃ e, (append c d v).res = .error e) ∧ (append c d v).data = d := by
   have hw := w_eq_L c hu
   rcases h with h | h
-  · have hm : d.length % c.L ≠ 0 := by
+  · have hm : d.length % c.w ≠ 0 := by
       rw [hw] at h
-      exact fun h0 => h ((trailing_nil_iff c.L d).mpr h0)
+      exact fun h0 => h ((trailing_nil_iff c.w d).mpr h0)
     unfold append
     rw [if_pos hm]
     exact ⟨⟨_, rfl⟩, rfl⟩
@@ -361,48 +361,48 @@ theorem append_rejects (c : Codec V) (hu : c.mult = 1) (hL : 0 < c.L) (d : Bits)
     · rw [createElement_err c v e he]
       exact ⟨⟨_, rfl⟩, rfl⟩
 
-theorem extendIter_refines (c : Codec V) (hu : c.mult = 1) (hL : 0 < c.L) (hwf : c.WF) (d : Bits) (vals : List V)
+theorem extendIter_refines (c : Codec V) (hL : 0 < c.w) (hwf : c.WF) (d : Bits) (vals : List V)
     (hv : vals.all (fits c) = true) (ht : trailing c.w d = []) :
     (extendIter c d vals).view c = .ok ((), items c d ++ vals) ∧ trailing c.w (extendIter c d vals).data = [] := by
-  obtain ⟨bs, t, hbs, ht', rfl, hch, htr, hlen, hit⟩ := blocks_view c hu hL d
+  obtain ⟨bs, t, hbs, ht', rfl, hch, htr, hlen, hit⟩ := blocks_view c hL d
   rw [htr] at ht
   subst ht
-  obtain ⟨bl, hf, hbl, hdec, _, _⟩ := encs_of_fits c hu hwf vals hv
-  have hm : (bs.flatten ++ ([] : Bits)).length % c.L = 0 := by
-    rw [List.append_nil, blocks_flatten_length c.L bs hbs]; exact Nat.mul_mod_left _ _
+  obtain ⟨bl, hf, hbl, hdec, _, _⟩ := encs_of_fits c hwf vals hv
+  have hm : (bs.flatten ++ ([] : Bits)).length % c.w = 0 := by
+    rw [List.append_nil, blocks_flatten_length c.w bs hbs]; exact Nat.mul_mod_left _ _
   have hs : extendIter c (bs.flatten ++ []) vals = ⟨(bs ++ bl).flatten ++ [], .ok ()⟩ := by
     unfold extendIter
-    rw [if_neg (not_not.mpr hm), extendLoop_blocks c hu hwf vals bl hf]
+    rw [if_neg (not_not.mpr hm), extendLoop_blocks c hwf vals bl hf]
     simp
-  have hbs' := append_blocks_length c.L bs bl hbs hbl
-  have hv' := view_of_blocks c hu hL (bs ++ bl) [] hbs' ht'
+  have hbs' := append_blocks_length c.w bs bl hbs hbl
+  have hv' := view_of_blocks c hL (bs ++ bl) [] hbs' ht'
   rw [hs, hit]
   refine ⟨?_, hv'.2.1⟩
   unfold Step.view
   simp only [hv'.1, List.map_append, hdec]
 
-theorem extendIter_trailing_rejects (c : Codec V) (hu : c.mult = 1) (hL : 0 < c.L) (d : Bits) (vals : List V)
+theorem extendIter_trailing_rejects (c : Codec V) (hL : 0 < c.w) (d : Bits) (vals : List V)
     (ht : trailing c.w d ≠ []) :
     (extendIter c d vals).res = .error .value ∧ (extendIter c d vals).data = d := by
   have hw := w_eq_L c hu
-  have hm : d.length % c.L ≠ 0 := by
+  have hm : d.length % c.w ≠ 0 := by
     rw [hw] at ht
-    exact fun h0 => ht ((trailing_nil_iff c.L d).mpr h0)
+    exact fun h0 => ht ((trailing_nil_iff c.w d).mpr h0)
   unfold extendIter
   rw [if_pos hm]
   exact ⟨rfl, rfl⟩
 
 /-- `extend(other_Array)` of the same dtype: the other's items are appended, and its trailing bits become ours. -/
-theorem extendArr_refines (c c2 : Codec V) (hu : c.mult = 1) (hL : 0 < c.L) (d d2 : Bits)
+theorem extendArr_refines (c c2 : Codec V) (hL : 0 < c.w) (d d2 : Bits)
     (hsame : c.name = c2.name ∧ c.L = c2.L) (ht : trailing c.w d = []) :
     (extendArr c d c2 d2).view c = .ok ((), items c d ++ items c d2) ∧
     trailing c.w (extendArr c d c2 d2).data = trailing c.w d2 := by
-  obtain ⟨bs, t, hbs, ht', rfl, hch, htr, hlen, hit⟩ := blocks_view c hu hL d
+  obtain ⟨bs, t, hbs, ht', rfl, hch, htr, hlen, hit⟩ := blocks_view c hL d
   rw [htr] at ht
   subst ht
-  obtain ⟨bs2, t2, hbs2, ht2, rfl, hch2, htr2, hlen2, hit2⟩ := blocks_view c hu hL d2
-  have hm : (bs.flatten ++ ([] : Bits)).length % c.L = 0 := by
-    rw [List.append_nil, blocks_flatten_length c.L bs hbs]; exact Nat.mul_mod_left _ _
+  obtain ⟨bs2, t2, hbs2, ht2, rfl, hch2, htr2, hlen2, hit2⟩ := blocks_view c hL d2
+  have hm : (bs.flatten ++ ([] : Bits)).length % c.w = 0 := by
+    rw [List.append_nil, blocks_flatten_length c.w bs hbs]; exact Nat.mul_mod_left _ _
   have hs : extendArr c (bs.flatten ++ []) c2 (bs2.flatten ++ t2) = ⟨(bs ++ bs2).flatten ++ t2, .ok ()⟩ := by
     unfold extendArr
     rw [if_neg (not_not.mpr hm)]
@@ -412,22 +412,22 @@ theorem extendArr_refines (c c2 : Codec V) (hu : c.mult = 1) (hL : 0 < c.L) (d d
       · exact h hsame.2
     rw [if_neg this]
     simp
-  have hbs' := append_blocks_length c.L bs bs2 hbs hbs2
-  have hv' := view_of_blocks c hu hL (bs ++ bs2) t2 hbs' ht2
+  have hbs' := append_blocks_length c.w bs bs2 hbs hbs2
+  have hv' := view_of_blocks c hL (bs ++ bs2) t2 hbs' ht2
   rw [hs, hit, hit2, htr2]
   refine ⟨?_, hv'.2.1⟩
   unfold Step.view
   simp only [hv'.1, List.map_append]
 
-theorem extendArr_rejects (c c2 : Codec V) (hu : c.mult = 1) (hL : 0 < c.L) (d d2 : Bits)
+theorem extendArr_rejects (c c2 : Codec V) (hL : 0 < c.w) (d d2 : Bits)
     (h : trailing c.w d ≠ [] ∨ c.name ≠ c2.name ∨ c.L ≠ c2.L) :
     (∃ e, (extendArr c d c2 d2).res = .error e) ∧ (extendArr c d c2 d2).data = d := by
   have hw := w_eq_L c hu
   unfold extendArr
   rcases h with h | h
-  · have hm : d.length % c.L ≠ 0 := by
+  · have hm : d.length % c.w ≠ 0 := by
       rw [hw] at h
-      exact fun h0 => h ((trailing_nil_iff c.L d).mpr h0)
+      exact fun h0 => h ((trailing_nil_iff c.w d).mpr h0)
     rw [if_pos hm]
     exact ⟨⟨_, rfl⟩, rfl⟩
   · split
@@ -436,7 +436,7 @@ theorem extendArr_rejects (c c2 : Codec V) (hu : c.mult = 1) (hL : 0 < c.L) (d d
 
 /-- `extend(array.array)`: when the dtype of the typecode matches ours and its standard size is the array's native
     item size (outside the region `extend_array_itemsize`), the array's items — `raw` read at our width — are appended. -/
-theorem extendBuf_refines_partial (c : Codec V) (hu : c.mult = 1) (hL : 0 < c.L) (d raw : Bits) (name2 : String) (L2 native : Nat)
+theorem extendBuf_refines_partial (c : Codec V) (hL : 0 < c.w) (d raw : Bits) (name2 : String) (L2 native : Nat)
     (hreg : extend_array_itemsize (some (name2, L2)) native = false)
     (hsame : c.name = name2 ∧ c.L = L2) (ht : trailing c.w d = []) :
     native = c.w ∧
@@ -447,12 +447,12 @@ theorem extendBuf_refines_partial (c : Codec V) (hu : c.mult = 1) (hL : 0 < c.L)
     have : L2 = native := by simpa using hreg
     rw [hw, hsame.2, this]
   refine ⟨hnat, ?_⟩
-  obtain ⟨bs, t, hbs, ht', rfl, hch, htr, hlen, hit⟩ := blocks_view c hu hL d
+  obtain ⟨bs, t, hbs, ht', rfl, hch, htr, hlen, hit⟩ := blocks_view c hL d
   rw [htr] at ht
   subst ht
-  obtain ⟨bs2, t2, hbs2, ht2, rfl, hch2, htr2, hlen2, hit2⟩ := blocks_view c hu hL raw
-  have hm : (bs.flatten ++ ([] : Bits)).length % c.L = 0 := by
-    rw [List.append_nil, blocks_flatten_length c.L bs hbs]; exact Nat.mul_mod_left _ _
+  obtain ⟨bs2, t2, hbs2, ht2, rfl, hch2, htr2, hlen2, hit2⟩ := blocks_view c hL raw
+  have hm : (bs.flatten ++ ([] : Bits)).length % c.w = 0 := by
+    rw [List.append_nil, blocks_flatten_length c.w bs hbs]; exact Nat.mul_mod_left _ _
   have hs : extendBuf c (bs.flatten ++ []) (some (name2, L2)) native (bs2.flatten ++ t2) = ⟨(bs ++ bs2).flatten ++ t2, .ok ()⟩ := by
     unfold extendBuf
     rw [if_neg (not_not.mpr hm)]
@@ -463,8 +463,8 @@ theorem extendBuf_refines_partial (c : Codec V) (hu : c.mult = 1) (hL : 0 < c.L)
     simp only
     rw [if_neg this]
     simp
-  have hbs' := append_blocks_length c.L bs bs2 hbs hbs2
-  have hv' := view_of_blocks c hu hL (bs ++ bs2) t2 hbs' ht2
+  have hbs' := append_blocks_length c.w bs bs2 hbs hbs2
+  have hv' := view_of_blocks c hL (bs ++ bs2) t2 hbs' ht2
   rw [hs, hit, hit2]
   unfold Step.view
   simp only [hv'.1, List.map_append]
@@ -484,26 +484,26 @@ theorem extend_array_itemsize_witness :
 /-- `insert(i, x)` = `list.insert(i, x)` with the trailing bits untouched — outside the region `insert_negative`
     (negative index with trailing bits present, or below `-len`).  Full statement (no `hreg`) fails on the pinned
     tree: see `insert_negative_witness`. -/
-theorem insert_refines_partial (c : Codec V) (hu : c.mult = 1) (hL : 0 < c.L) (hwf : c.WF) (d : Bits) (i : Int) (v : V)
+theorem insert_refines_partial (c : Codec V) (hL : 0 < c.w) (hwf : c.WF) (d : Bits) (i : Int) (v : V)
     (hv : fits c v = true) (hreg : insert_negative c d i = false) :
     (insert c d i v).view c = .ok ((), PyL.insert (items c d) i v) ∧
     trailing c.w (insert c d i v).data = trailing c.w d := by
-  obtain ⟨bs, t, hbs, ht, rfl, hch, htr, hlen, hit⟩ := blocks_view c hu hL d
+  obtain ⟨bs, t, hbs, ht, rfl, hch, htr, hlen, hit⟩ := blocks_view c hL d
   obtain ⟨b, hb⟩ := (fits_iff c v).mp hv
-  obtain ⟨hce, hbl, hdec⟩ := createElement_ok c hu hwf v b hb
-  have hdl : (bs.flatten ++ t).length = bs.length * c.L + t.length := by
-    rw [List.length_append, blocks_flatten_length c.L bs hbs]
+  obtain ⟨hce, hbl, hdec⟩ := createElement_ok c hwf v b hb
+  have hdl : (bs.flatten ++ t).length = bs.length * c.w + t.length := by
+    rw [List.length_append, blocks_flatten_length c.w bs hbs]
   -- the item position the code computes
   have key : ∃ k : Nat, k ≤ bs.length ∧
       (k : Int) = (if i < 0 then max (i + (bs.length : Int)) 0 else min i (bs.length : Int)) ∧
-      (if min i ((len c (bs.flatten ++ t) : Nat) : Int) * (c.L : Int) < 0
-        then min i ((len c (bs.flatten ++ t) : Nat) : Int) * (c.L : Int) + ((bs.flatten ++ t).length : Int)
-        else min i ((len c (bs.flatten ++ t) : Nat) : Int) * (c.L : Int)) = ((k * c.L : Nat) : Int) := by
+      (if min i ((len c (bs.flatten ++ t) : Nat) : Int) * (c.w : Int) < 0
+        then min i ((len c (bs.flatten ++ t) : Nat) : Int) * (c.w : Int) + ((bs.flatten ++ t).length : Int)
+        else min i ((len c (bs.flatten ++ t) : Nat) : Int) * (c.w : Int)) = ((k * c.w : Nat) : Int) := by
     rw [hlen]
     unfold insert_negative at hreg
     rw [hlen] at hreg
     by_cases hi : i < 0
-    · have h1 : (bs.flatten ++ t).length % c.L = 0 ∧ -(bs.length : Int) ≤ i := by
+    · have h1 : (bs.flatten ++ t).length % c.w = 0 ∧ -(bs.length : Int) ≤ i := by
         simp only [hi, decide_true, Bool.true_and, Bool.or_eq_false_iff, bne_eq_false_iff_eq,
           decide_eq_false_iff_not, not_lt] at hreg
         exact hreg
@@ -515,7 +515,7 @@ theorem insert_refines_partial (c : Codec V) (hu : c.mult = 1) (hL : 0 < c.L) (h
       · simp only [hi, if_true]; omega
       · have hm : min i (bs.length : Int) = i := by omega
         rw [hm]
-        have hneg : i * (c.L : Int) < 0 := Int.mul_neg_of_neg_of_pos hi (by omega)
+        have hneg : i * (c.w : Int) < 0 := Int.mul_neg_of_neg_of_pos hi (by omega)
         rw [if_pos hneg, hdl, ht0]
         have : ((i + (bs.length : Int)).toNat : Int) = i + bs.length := by omega
         push_cast
@@ -523,24 +523,24 @@ theorem insert_refines_partial (c : Codec V) (hu : c.mult = 1) (hL : 0 < c.L) (h
         ring
     · refine ⟨(min i (bs.length : Int)).toNat, by omega, ?_, ?_⟩
       · simp only [hi, if_false]; omega
-      · have hnn : ¬ (min i (bs.length : Int) * (c.L : Int) < 0) := by
-          have : 0 ≤ min i (bs.length : Int) * (c.L : Int) := Int.mul_nonneg (by omega) (by omega)
+      · have hnn : ¬ (min i (bs.length : Int) * (c.w : Int) < 0) := by
+          have : 0 ≤ min i (bs.length : Int) * (c.w : Int) := Int.mul_nonneg (by omega) (by omega)
           omega
         rw [if_neg hnn]
         have : ((min i (bs.length : Int)).toNat : Int) = min i (bs.length : Int) := by omega
         push_cast
         rw [this]
   obtain ⟨k, hk, hkj, hpos⟩ := key
-  have hkl : k * c.L ≤ (bs.flatten ++ t).length := by
+  have hkl : k * c.w ≤ (bs.flatten ++ t).length := by
     rw [hdl]
-    have := Nat.mul_le_mul_right c.L hk
+    have := Nat.mul_le_mul_right c.w hk
     omega
   have hs : insert c (bs.flatten ++ t) i v = ⟨(bs.take k ++ b :: bs.drop k).flatten ++ t, .ok ()⟩ := by
     unfold insert
     simp only [hce]
-    rw [bInsert_of _ b _ (k * c.L) (by omega) hkl hpos, insert_block c.L bs t b hbs k hk]
-  have hbs' := insert_blocks_length c.L bs b hbs hbl k
-  have hv' := view_of_blocks c hu hL _ t hbs' ht
+    rw [bInsert_of _ b _ (k * c.w) (by omega) hkl hpos, insert_block c.w bs t b hbs k hk]
+  have hbs' := insert_blocks_length c.w bs b hbs hbl k
+  have hv' := view_of_blocks c hL _ t hbs' ht
   rw [hs, hit, htr]
   refine ⟨?_, hv'.2.1⟩
   unfold Step.view PyL.insert
@@ -566,16 +566,16 @@ theorem insert_negative_witness :
     PyL.insert (items c [false, true]) (-2) (.int 3) = [.int 3, .int 1] := by
   decide
 
-theorem pop_refines (c : Codec V) (hu : c.mult = 1) (hL : 0 < c.L) (d : Bits) (i : Int) :
+theorem pop_refines (c : Codec V) (hL : 0 < c.w) (d : Bits) (i : Int) :
     (pop c d i).view c = PyL.pop (items c d) i := by
-  have hg := getItem_refines c hu hL d i
-  have hd := delItem_refines c hu hL d i
+  have hg := getItem_refines c hL d i
+  have hd := delItem_refines c hL d i
   unfold pop PyL.pop
   by_cases h0 : len c d = 0
   · rw [if_pos h0]
     have : items c d = [] := by
       apply List.eq_nil_of_length_eq_zero
-      rw [← len_eq c hu d]; exact h0
+      rw [← len_eq c d]; exact h0
     rw [this]
     have : Py.getIndex ([] : List V) i = .error .index := by
       unfold Py.getIndex
@@ -609,14 +609,14 @@ theorem pop_refines (c : Codec V) (hu : c.mult = 1) (hL : 0 < c.L) (d : Bits) (i
           injection hd with _ hd
           simp [hd]
 
-theorem pop_trailing (c : Codec V) (hu : c.mult = 1) (hL : 0 < c.L) (d : Bits) (i : Int) :
+theorem pop_trailing (c : Codec V) (hL : 0 < c.w) (d : Bits) (i : Int) :
     trailing c.w (pop c d i).data = trailing c.w d := by
   unfold pop
   split
   · rfl
   · split
     · rfl
-    · exact delItem_trailing c hu hL d i
+    · exact delItem_trailing c hL d i
 
 theorem pop_error_unchanged (c : Codec V) (d : Bits) (i : Int) (e : Err)
     (h : (pop c d i).res = .error e) : (pop c d i).data = d := by
@@ -636,18 +636,18 @@ theorem pop_error_unchanged (c : Codec V) (d : Bits) (i : Int) (e : Err)
 
 /-- `count(value)` = `list.count(value)` for a value `math.isnan` accepts and that is not NaN — outside the region
     `count_nonnumeric`. -/
-theorem count_refines_partial (c : Codec V) (vo : ValOps V) (hu : c.mult = 1) (hL : 0 < c.L) (d : Bits) (value : V)
+theorem count_refines_partial (c : Codec V) (vo : ValOps V) (hL : 0 < c.w) (d : Bits) (value : V)
     (hnan : vo.isnan value = .ok false) :
     count c vo d value = .ok ((items c d).countP fun i => vo.eq i value) := by
   unfold count
-  simp only [hnan, iter_eq_items c hu hL d]
+  simp only [hnan, iter_eq_items c hL d]
 
 /-- `count(nan)` counts the NaN items (documented). -/
-theorem count_nan (c : Codec V) (vo : ValOps V) (hu : c.mult = 1) (hL : 0 < c.L) (d : Bits) (value : V)
+theorem count_nan (c : Codec V) (vo : ValOps V) (hL : 0 < c.w) (d : Bits) (value : V)
     (hnan : vo.isnan value = .ok true) :
     count c vo d value = .ok ((items c d).countP fun i => match vo.isnan i with | .ok b => b | .error _ => false) := by
   unfold count
-  simp only [hnan, iter_eq_items c hu hL d]
+  simp only [hnan, iter_eq_items c hL d]
   rfl
 
 /-- Known finding `count-nonnumeric`: `Array('hex4', ['e']).count('e')` raises TypeError, `['e'].count('e')` is 1. -/
@@ -715,16 +715,16 @@ theorem bytes_dtype_witness :
 
 /-- In that region every value that fits is rejected by `_create_element` (a non-empty item is never `L` bits long
     when `L < L * mult`). -/
-theorem bytes_dtype_rejects_all (c : Codec V) (hwf : c.WF) (hL : 0 < c.L) (hm : 1 < c.mult) (v : V) :
+theorem bytes_dtype_rejects_all (c : Codec V) (hwf : c.WF) (hL : 0 < c.w) (hm : 1 < c.mult) (v : V) :
     ∃ e, createElement c v = .error e := by
   unfold createElement
   cases h : c.enc v with
   | error e => exact ⟨e, rfl⟩
   | ok b =>
     have hl := hwf.len_enc v b h
-    have : b.length ≠ c.L := by
+    have : b.length ≠ c.w := by
       rw [hl, Codec.w]
-      have : c.L * 1 < c.L * c.mult := Nat.mul_lt_mul_of_pos_left hm hL
+      have : c.w * 1 < c.w * c.mult := Nat.mul_lt_mul_of_pos_left hm hL
       omega
     simp only [this, ne_eq, not_false_eq_true, if_true]
     exact ⟨_, rfl⟩
